@@ -28,6 +28,18 @@ class InvalidP8PNGError(util.InvalidP8DataError):
     pass
 
 
+class CodeTooLargeError(util.InvalidP8DataError):
+    """Exception for code that does not fit the cart's code area."""
+
+    def __init__(self, size, limit):
+        self.size = size
+        self.limit = limit
+
+    def __str__(self):
+        return 'Code is too large for a .p8.png: {} bytes, limit {}'.format(
+            self.size, self.limit)
+
+
 def get_picodata_from_pngdata(width, height, pngdata, attrs):
     """Extracts PICO-8 bytes from a .p8.png's PNG data.
 
@@ -159,6 +171,8 @@ def get_bytes_from_code(code):
         code_bytes = bytes(code)
 
     byte_array = bytearray(0x8000-0x4300)
+    if len(code_bytes) > len(byte_array):
+        raise CodeTooLargeError(len(code_bytes), len(byte_array))
     byte_array[:len(code_bytes)] = code_bytes
 
     return byte_array
